@@ -26,6 +26,7 @@ type c16Init struct {
 	breaks []int
 	finish bool // run the program to its end
 	none   bool // nothing executed at all
+	bos    bool // breakonstart instead of breakpoints
 }
 
 var c16Inits = []c16Init{
@@ -34,17 +35,21 @@ var c16Inits = []c16Init{
 	{name: "top", src: "a := 1\nb := 2\nc := 3", breaks: []int{2}},
 	{name: "call1", src: "func f(x) {\n  y := x\n  return y\n}\na := f(1)\nb := 2", breaks: []int{2}},
 	{name: "call2", src: "func g(x) {\n  return x * 2\n}\nfunc f(x) {\n  let z := g(x)\n  return z + 1\n}\nr := f(2)", breaks: []int{2}},
+	// single-statement programs: the root node itself carries a token, so the
+	// very first state visit of a fresh debugger already suspends
+	{name: "oneliner", src: "a := 1", breaks: []int{1}},
+	{name: "oneliner-bos", src: "a := [1, 2]", bos: true},
 	{name: "error", src: "func f() {\n  raise(\"E\", \"d\", {\"k\": [1]})\n}\nf()\nb := 2"},
 }
 
 type c16Sess struct {
-	en      *ienv
-	dbg     util.ECALDebugger
-	tid     uint64
-	hasT    bool
-	done    bool
-	tpanic  string
-	wg      vsched.WaitGroup
+	en     *ienv
+	dbg    util.ECALDebugger
+	tid    uint64
+	hasT   bool
+	done   bool
+	tpanic string
+	wg     vsched.WaitGroup
 }
 
 func (s *c16Sess) suspendedIDs() []string {
@@ -73,6 +78,9 @@ func c16Start(in c16Init) (*c16Sess, string) {
 	}
 	for _, b := range in.breaks {
 		s.dbg.HandleInput(fmt.Sprintf("break v:%d", b))
+	}
+	if in.bos {
+		s.dbg.HandleInput("breakonstart true")
 	}
 	ast, err := parser.ParseWithRuntime("v", in.src, s.en.erp)
 	if err == nil {
